@@ -727,7 +727,10 @@ func (sys *System) GetCachedLocations(ctx *Context) []string {
 }
 
 func (sys *System) ensureStorage(ctx *Context) (Storage, error) {
-	// Assumes we have the sys lock
+	// The first requests for different locations can arrive
+	// concurrently, and they must all end up with the same Storage.
+	sys.Lock()
+	defer sys.Unlock()
 	if sys.storage != nil {
 		return sys.storage, nil
 	}
